@@ -90,8 +90,29 @@ def intsetElems (sz : Nat) : Nat → Bytes → List Bytes × Bool
     if buf.length < sz then ([], false)
     else let (xs, c) := intsetElems sz n (buf.drop sz); (fmtInt (signed (8 * sz) (leNat (buf.take sz))) :: xs, c)
 
+/-- the readable prefix of `n` zipmap pairs (`ReadZipmapItem(buf, false)`, `ReadZipmapItem(buf, true)`) -/
+def zmPairs : Nat → Bytes → List (Bytes × Bytes) × Bool
+  | 0, _ => ([], true)
+  | n + 1, buf =>
+    match RdbDecode.zmItem true false buf with
+    | .error _ => ([], false)
+    | .ok (a, r1) =>
+      match RdbDecode.zmItem true true r1 with
+      | .error _ => ([], false)
+      | .ok (b, r2) => let (xs, c) := zmPairs n r2; ((a, b) :: xs, c)
+
 def drvExpand (t : UInt8) (blob : Bytes) : Option Expansion :=
   match t.toNat with
+  | 9 =>
+    -- utils.go reads the count byte itself: >= 254 = count the items (CountZipmapItems, halved), else the byte
+    match blob with
+    | [] => none
+    | lenByte :: r =>
+      if lenByte.toNat ≥ 254 then
+        match RdbDecode.zmCount true blob.length (r.length + 1) 0 r with
+        | .error _ => none
+        | .ok n => let (xs, c) := zmPairs (n / 2) r; some ⟨n / 2, .hash xs, c⟩
+      else let (xs, c) := zmPairs lenByte.toNat r; some ⟨lenByte.toNat, .hash xs, c⟩
   | 10 =>
     match RdbDecode.zlLength blob with
     | .error _ => none
